@@ -1589,17 +1589,26 @@ def r2_7(rep):
     sites = [c for c in b.calls(lambda n: n["k"] == "Call" and callee_of(n).endswith("attributes::repr_list"))
              if any(x["k"] == "Lit" and isinstance(x.get("v"), str) and "packed" in x["v"] for x in b.walk(c)) or
              any(x["k"] == "Local" and b.local_init(x["id"]) is not None and "packed" in b.canon(b.local_init(x["id"]), 6) for x in b.walk(c))]
-    okr = False
+    # the site is reached only when the flag is set: decided over all combinations of the conditions on the way (locals resolved,
+    # either branch order)
+    import itertools
+    from c08 import _reach, _atoms, _ev
+    okr = bool(sites)
+    pk_name = "local:" + lets[0]["pat"]["name"]
     for c in sites:
-        for pol, kind, g in b.guards(c):
-            if kind == "cond" and pol:
-                todo = [strip(g)]
-                while todo:
-                    e = todo.pop()
-                    if e.get("k") == "Binary" and e["op"] == "&&":
-                        todo += [strip(e["l"]), strip(e["r"])]
-                    elif e.get("k") == "Local" and e["id"] == lid:
-                        okr = True
+        f = _reach(b, c)
+        atoms = sorted(_atoms(f, set()))
+        pk_atoms = [a for a in atoms if a == pk_name or a.startswith("ir::comp::CompInfo::is_packed(param:self")]
+        if not pk_atoms or len(atoms) > 14:
+            okr = False
+            continue
+        for vals in itertools.product([False, True], repeat=len(atoms)):
+            env = dict(zip(atoms, vals))
+            if any(env[a] for a in pk_atoms):
+                continue
+            if _ev(f, env):
+                okr = False
+                break
     rep.check(okr, "packed:selects-repr", "`repr(C, packed[(N)])` is emitted under the packed flag", b.loc(sites[0]) if sites else b.loc(b.root))
 
 
